@@ -505,6 +505,149 @@ def run_obj_history(w: ObjWorld, ops, rng_state=None):
     return obs
 
 
+
+# ------------------------------------------------------------------------------------------------
+# part C: the per-object cache machine (Model/ObjCache.lean) against real position arrays
+
+
+def _pal_rows():
+    """fixed, generic points (value id -> xyz); no two ordered pairs have the same difference vector"""
+    rng = np.random.RandomState(20260929)
+    pts = []
+    for v in range(16):
+        d = rng.normal(size=3)
+        d /= np.linalg.norm(d)
+        pts.append(d * (6.4e6 + 1.0e5 * rng.rand()))
+    return np.array(pts)
+
+
+PAL = _pal_rows()
+
+
+def gen_obj_history(rng, length):
+    """operations of the object machine; keeps its own picture of (rows, other) to stay well-formed"""
+    ops, objs = [], []  # objs: dict(n=rows, other=index or None)
+    for _ in range(length):
+        k = rng.random()
+        nonempty = [i for i, o in enumerate(objs) if o["n"] > 0]
+        if not objs or k < 0.12:
+            n = rng.randint(1, 5)
+            ops.append("create:" + ",".join(str(rng.randrange(12)) for _ in range(n)))
+            objs.append({"n": n, "other": None})
+        elif k < 0.30 and nonempty:
+            p = rng.choice(nonempty)
+            a = rng.randrange(objs[p]["n"])
+            b = rng.randint(a + 1, objs[p]["n"])
+            rows = list(range(a, b))
+            ops.append(f"view:{p}:" + ",".join(map(str, rows)))
+            if objs[p]["other"] is not None:
+                objs.append({"n": len(rows), "other": None})
+                objs.append({"n": len(rows), "other": len(objs) - 1})
+            else:
+                objs.append({"n": len(rows), "other": None})
+        elif k < 0.38 and nonempty:
+            p = rng.choice(nonempty)
+            rows = [rng.randrange(objs[p]["n"]) for _ in range(rng.randint(1, 4))]
+            ops.append(f"take:{p}:" + ",".join(map(str, rows)))
+            objs.append({"n": len(rows), "other": None})
+        elif k < 0.52:
+            p = rng.randrange(len(objs))
+            # attachment chains (the other of an other) are outside the model: `p[a:b]` slices them recursively in the
+            # real code (and recurses forever on a cycle), the model's view of the other carries no other of its own
+            is_other = {o["other"] for o in objs if o["other"] is not None}
+            cands = [i for i, o in enumerate(objs) if o["n"] == objs[p]["n"] and i != p and o["other"] is None and p not in is_other]
+            if cands and rng.random() < 0.85:
+                q = rng.choice(cands)
+                ops.append(f"setother:{p}:{q}")
+                objs[p]["other"] = q
+            else:
+                ops.append(f"setother:{p}:-")
+                objs[p]["other"] = None
+        elif k < 0.72 and nonempty:
+            p = rng.choice(nonempty)
+            ops.append(f"setitem:{p}:{rng.randrange(objs[p]['n'])}:{rng.randrange(12)}")
+        elif k < 0.86:
+            ops.append(f"readconv:{rng.randrange(len(objs))}")
+        else:
+            ops.append(f"readder:{rng.randrange(len(objs))}")
+    return ops
+
+
+def run_obj_machine(ctx, mods, ops, label):
+    tr, rot, ell, nputil, T, Time, position = mods
+    P = position.Position
+    objs = []
+    outs = []  # ("D",) | ("C", array) | ("R", array) | ("B",)
+    case = {"object_machine": ops}
+    for op in ops:
+        t = op.split(":")
+        try:
+            if t[0] == "create":
+                ids = [int(x) for x in t[1].split(",")]
+                objs.append(P(PAL[ids].copy(), system="trs"))
+                outs.append(("D",))
+            elif t[0] == "view":
+                p = int(t[1])
+                rows = [int(x) for x in t[2].split(",")]
+                r = objs[p][rows[0]:rows[-1] + 1]
+                if getattr(objs[p], "other", None) is not None:
+                    objs.append(r.other)
+                objs.append(r)
+                outs.append(("D",))
+            elif t[0] == "take":
+                p = int(t[1])
+                rows = [int(x) for x in t[2].split(",")]
+                r = objs[p][rows]
+                r.other = None  # the model's `take` is a bare copy of the rows
+                objs.append(r)
+                outs.append(("D",))
+            elif t[0] == "setother":
+                objs[int(t[1])].other = None if t[2] == "-" else objs[int(t[2])]
+                outs.append(("D",))
+            elif t[0] == "setitem":
+                objs[int(t[1])][int(t[2])] = PAL[int(t[3])]
+                outs.append(("D",))
+            elif t[0] == "readconv":
+                outs.append(("C", np.asarray(objs[int(t[1])].llh, dtype=float).copy()))
+            elif t[0] == "readder":
+                o = objs[int(t[1])]
+                if getattr(o, "other", None) is None:
+                    outs.append(("B",))
+                else:
+                    outs.append(("R", np.asarray(o.direction, dtype=float).copy()))
+        except Exception as e:
+            outs.append(("ERR", type(e).__name__))
+    model = ctx.driver.ask1("c08 obj src " + " ".join(ops)).split("|")
+    ctx.case(["C", label, ops], nontrivial=sum(o.startswith("read") for o in ops) > 1)
+    ctx.count("C:object-machine")
+    llh_of = lambda ids: tr._trs2llh.__wrapped__(nputil.HashArray(PAL[ids]), ell.GRS80)
+    if len(model) != len(outs):
+        ctx.disagree("object cache machine (length)", case, model, [o[0] for o in outs])
+        return
+    for k, (m, o) in enumerate(zip(model, outs)):
+        kind = m.split(":")[0]
+        ok = True
+        if kind in ("D", "B"):
+            ok = o[0] == kind
+        elif kind == "C":
+            ids = [int(x) for x in m.split(":")[1].split(",")]
+            exp = llh_of(ids)
+            ok = o[0] == "C" and o[1].shape == exp.shape and bool(np.all(np.abs(o[1] - exp) <= np.array([1e-11, 1e-11, 1e-5])))
+        elif kind == "R":
+            a = [int(x) for x in m.split(":")[1].split(",")]
+            b = [int(x) for x in m.split(":")[2].split(",")]
+            d = PAL[b] - PAL[a]
+            nrm = np.linalg.norm(d, axis=1)[:, None]
+            with np.errstate(invalid="ignore", divide="ignore"):
+                exp = d / nrm
+            ok = o[0] == "R" and o[1].shape == exp.shape and bool(np.all((np.abs(o[1] - exp) <= 1e-12) | (np.isnan(exp) & np.isnan(o[1]))))
+        if not ok:
+            ctx.disagree("object cache machine", {**case, "step": k, "op": ops[k]}, m, [o[0]] + ([o[1].tolist()] if len(o) > 1 and hasattr(o[1], "tolist") else list(o[1:])))
+            # the model's value is the one recomputed from the current contents: a difference is a stale or wrong read
+            ctx.violate(f"object-cache-stale:{ops[k].split(':')[0]}", f"step {k} ({ops[k]}) does not return the value of the current contents", {**case, "step": k})
+            return
+
+
 def run(ctx: Ctx):
     from translator import extract_cache
 
@@ -602,6 +745,16 @@ def run(ctx: Ctx):
             op = seq[len(ops_k) - 1] if ops_k and len(ops_k) <= len(seq) else ("?", "?", "?")
             ctx.violate(f"history-visible:{op[0]}:{op[2] if isinstance(op[2], str) else ''}",
                         f"step {len(ops_k) - 1} ({op}) gave {str(a[k])[:120]} naturally but {str(b[k])[:120]} with caches flushed", case)
+    # ---------------- part C
+    fixed = [
+        ["create:1,2,3,4", "readconv:0", "view:0:0,1", "view:1:0", "setitem:2:0:7", "readconv:0", "readconv:1"],
+        ["create:1,2,3,4", "create:5,6,7,8", "setother:0:1", "readder:0", "view:0:1,2", "readder:3", "setitem:2:0:9", "readder:3", "readder:0",
+         "setitem:1:3:2", "readder:0", "setother:0:-", "readder:0"],
+    ]
+    for h in fixed:
+        run_obj_machine(ctx, mods, h, "fixed")
+    for _ in range(ctx.budget(250, 8000)):
+        run_obj_machine(ctx, mods, gen_obj_history(rng, rng.randint(4, 30)), "random")
     ctx.traces = ctx.evaluations
 
 
